@@ -8,6 +8,6 @@ LEVEL_TEXT = ("proved for every registry meeting DecoderOK and every nesting dep
 LEVEL_NOTE = "assumes DecoderOK and sorted(); bounded stand-in (real engine vs the clause on enumerated configurations) runs next to the proof"
 DESIGN_REF = "DESIGN.md 5.1 E3, 5.2 J5"
 FUNCTIONS = ENGINE_FUNCS
-EXCLUDE_CLAUSES = ("E4",)
+EXCLUDE_CLAUSES = ("E4",) + LOWER_VIEW
 TRUSTED = ENGINE_TRUSTED
 BOUNDED = [engine_bounded(("C05",))]
